@@ -160,7 +160,7 @@ func TestProcs(t *testing.T) {
 					t.Fatal(err)
 				}
 				row := procRow{Shape: s.Name, Trigger: trig, IgnInt: s.IgnInt, Detached: s.Detached, Instant: inst, Started: started, TimeoutMs: int(killTimeout / time.Millisecond)}
-				row.Reported = r.waitDone(job.ID, killTimeout+5*time.Second)
+				row.Reported = r.waitDone(job.ID, killTimeout+30*time.Second)
 				row.ElapsedMs = int(time.Since(t0) / time.Millisecond)
 				row.StallMs = int(stallMaxUs.Load() / 1000)
 				at := marked(marker)
